@@ -29,6 +29,7 @@ struct EncResult {
 	std::string error, error_cls;
 	bool ended_early = false;
 	bool refused = false;              // a flush/update was refused and the session stopped
+	uint64_t final_block_size = 0;     // Block size after a re-initialisation that changed it
 	bool delayed_refusal = false;      // the threaded encoder said LZMA_OK to a chain it can only refuse later
 	uint64_t calls = 0;
 	uint64_t max_progress_out = 0;
@@ -135,6 +136,8 @@ static void run_session(const Plan &plan, const Bytes &input, bool canonical, Si
 		if (po > res.max_progress_out) res.max_progress_out = po;
 	};
 
+	Chain *cur_chain = es.use_preset ? nullptr : &es.chain;   // the chain the encoder is using now (changed by accepted updates; unknown while a preset is in use)
+	int64_t upd_calls_left = canonical ? 0 : plan.p("same_chain_updates", 0), next_upd_call = plan.p("same_chain_update_first", 0);
 	// returns 0 to go on, 1 when the session is over
 	auto interrupt = [&]() -> int {
 		if (end_after >= 0 && (int64_t)ss.calls >= end_after) { res.ended_early = true; v.count("reach.early_end"); return 1; }
@@ -144,11 +147,25 @@ static void run_session(const Plan &plan, const Bytes &input, bool canonical, Si
 			// re-initialise without lzma_end: with a different thread count to
 			// exercise both the thread-reuse and the thread-restart paths
 			if (plan.p("reinit_threads", 0) > 0) es.mt.threads = (uint32_t)plan.p("reinit_threads");
+			// ... and with another Block size (the workers' input buffers were sized for the old one)
+			if (plan.p("reinit_block_size", 0) > 0) es.mt.block_size = (uint64_t)plan.p("reinit_block_size");
 			lzma_ret r2 = enc_init(&ss.s, es);
 			if (r2 != LZMA_OK) { res.status = r2; res.error = fmt("re-init returned %s", ret_name(r2)); res.error_cls = "init"; return 1; }
+			cur_chain = es.use_preset ? nullptr : &es.chain;
+			res.final_block_size = es.mt.block_size;
 			ss.in_pos = 0; ss.in_limit = 0; ss.out.clear(); res.acks.clear(); res.full_offsets.clear();
 			prog_in = prog_out = 0; res.max_progress_out = 0;
 			return 2;   // restart the op list
+		}
+		// lzma_filters_update() with the chain already in use, between two lzma_code() calls of one
+		// segment (e.g. while all workers are busy and a copy of the chain waits for the next one):
+		// accepted or refused, it must not change the output, leak, or disturb anything
+		if (es.kind == EK_STREAM_MT && cur_chain && upd_calls_left > 0 && (int64_t)ss.calls >= next_upd_call) {
+			--upd_calls_left;
+			next_upd_call = (int64_t)ss.calls + 1 + plan.p("same_chain_update_gap", 3);
+			lzma_ret ur = lzma_filters_update(&ss.s, cur_chain->f);
+			v.count(ur == LZMA_OK ? "reach.same_chain_update_between_calls_ok" : "reach.same_chain_update_between_calls_refused");
+			if (ur != LZMA_OK && ur != LZMA_PROG_ERROR && ur != LZMA_OPTIONS_ERROR && ur != LZMA_MEM_ERROR) { res.error = fmt("filters_update returned %s", ret_name(ur)); res.error_cls = "update-status"; return 1; }
 		}
 		return 0;
 	};
@@ -252,7 +269,7 @@ restart:
 				// calculation) and reports the rest from a later lzma_code() - the
 				// documented "delayed error" of lzma_stream_encoder_mt(); that late
 				// LZMA_OPTIONS_ERROR is the refusal.
-				if (ur == LZMA_OK && es.kind == EK_STREAM_MT) { res.delayed_refusal = true; v.count("reach.filters_update_bad_chain_delayed_refusal"); continue; }
+				if (ur == LZMA_OK && es.kind == EK_STREAM_MT) { res.delayed_refusal = true; upd_calls_left = 0; v.count("reach.filters_update_bad_chain_delayed_refusal"); continue; }
 				if (ur == LZMA_OK) { v.count("reach.filters_update_bad_chain_ignored_midblock"); continue; }
 				if (ur != LZMA_OPTIONS_ERROR && ur != LZMA_PROG_ERROR && ur != LZMA_MEM_ERROR) { res.error = fmt("filters_update returned %s", ret_name(ur)); res.error_cls = "update-status"; break; }
 				++res.updates_refused;
@@ -262,7 +279,7 @@ restart:
 			if (op.has("lc")) { c->lz.lc = (uint32_t)op.get("lc"); c->lz.lp = (uint32_t)op.get("lp"); c->lz.pb = (uint32_t)op.get("pb"); }
 			if (op.has("dict")) c->lz.dict_size = (uint32_t)op.get("dict");
 			lzma_ret ur = lzma_filters_update(&ss.s, f);
-			if (ur == LZMA_OK) { ++res.updates_ok; v.count("reach.filters_update_ok"); if (c != &es.chain) { ++res.chain_changes; v.count("reach.chain_changed"); } }
+			if (ur == LZMA_OK) { ++res.updates_ok; v.count("reach.filters_update_ok"); cur_chain = c; if (c != &es.chain) { ++res.chain_changes; v.count("reach.chain_changed"); } }
 			else {
 				++res.updates_refused; v.count("reach.filters_update_refused");
 				c->lz = saved;
@@ -452,7 +469,7 @@ static void enc_exec(const Plan &plan, Verdict &v)
 		std::vector<size_t> cuts = res.full_offsets;
 		cuts.push_back(input.size());
 		size_t prev = 0;
-		uint64_t bs = es.kind == EK_STREAM_MT ? es.mt.block_size : 0;
+		uint64_t bs = es.kind == EK_STREAM_MT ? (res.final_block_size ? res.final_block_size : es.mt.block_size) : 0;
 		// filters_update may change what block_size==0 would mean, but we
 		// always give an explicit block size
 		for (size_t c : cuts) {
@@ -602,7 +619,11 @@ static void c08_gen(Rng &rng, Plan &plan, bool thorough)
 	if (rng.chance(250)) plan.setp("mf_norm_after", rng.range(1, 30000));
 	int ending = (int)rng.below(12);
 	if (ending == 0) plan.setp("end_after_calls", (int64_t)rng.below(60));
-	if (ending == 1) { plan.setp("reinit_after_calls", (int64_t)rng.below(60)); plan.setp("reinit_threads", rng.range(1, 8)); }
+	if (ending == 1) {
+		plan.setp("reinit_after_calls", (int64_t)rng.below(60)); plan.setp("reinit_threads", rng.chance(500) ? plan.p("threads") : rng.range(1, 8));
+		if (rng.chance(600)) { static const int64_t bs[] = { 1, 100, 4096, 20000, 65536, 200000 }; int64_t b = bs[rng.below(6)]; if (plan.p("in_len") / b > 250) b = plan.p("in_len") / 250 + 1; plan.setp("reinit_block_size", b); }
+	}
+	if (rng.chance(300)) { plan.setp("same_chain_updates", rng.range(1, 6)); plan.setp("same_chain_update_first", (int64_t)rng.below(30)); plan.setp("same_chain_update_gap", (int64_t)rng.below(8)); }
 	gen_history(rng, plan, (size_t)plan.p("in_len"), false, true, true);
 }
 
